@@ -398,3 +398,158 @@ pub fn fit_universe() -> Vec<Case> {
     }
     v
 }
+
+// ================================================================================================
+// The "near-miss" family: for every opt-in rewrite, inputs that LOOK like the thing the option rewrites but
+// differ from it by one token that has to be kept (`x: x::<T>` next to `x: x`, `try!(a, b)` next to `try!(a)`,
+// `((a,))` next to `((a))`, `0xABCDEFu32`, `1.0..2.0`, `#[derive(A)] #[cfg(x)] #[derive(B)]` …), in plain code,
+// inside a `macro_rules!` body and inside macro call arguments, under every value of every such option.
+// Small (the rewrites do not depend on the layout), so quick runs ALL of it.
+// ================================================================================================
+
+/// statement lists (placed in a fn body).  A name that starts with `e15-` is formatted under edition 2015.
+pub const NM_STMT_SHAPES: &[(&str, &str)] = &[
+    // use_field_init_shorthand
+    ("fis-plain", "let s = S { a: a, b: b, c };"),
+    ("fis-generic", "let s = S { x: x::<T>, a: a, y: y::<'static, u8>, z: z::<{ 1 }> };"),
+    ("fis-raw", "let s = S { y: r#y, r#z: z, r#h: r#h, a: a };"),
+    ("fis-paren-path", "let s = S { w: (w), v: v.0, t: self::t, u: ::u, q: <q>::q, k: crate::k, a: a };"),
+    ("fis-attr", "let s = S { #[a] u: u, #[cfg(x)] q: q, a: a };"),
+    ("fis-exprs", "let s = S { p: p?, o: o!(), n: &n, m: *m, l: l as u8, k: k(), j: j.j, 0: 0, i: -i, h: !h, g: g.await, e: e[0], d: { d }, c: c.c(), b: move || b, a: a };"),
+    ("fis-nested", "let s = S { x: T { x: x }, y: [y], z: (z,), w: { w }, v: f(v), u: U { u }, a: a };"),
+    ("fis-pat", "let S { x: x, y: ref y, z: mut z, w: w @ _, r#v: v, u: r#u, t: t, .. } = s; match s { S { a: a, b: _ } => {} S { a: A, b: b } => {} }"),
+    ("fis-update", "let s = S { a: a, ..a }; let t = S { b: b, ..Default::default() }; let u = S::<T> { c: c }; let v = <S as T>::U { d: d };"),
+    // use_try_shorthand
+    ("e15-try-plain", "let a = try!(b); let c = try!(d.e(f)); let g = try!(try!(h));"),
+    ("e15-try-two-args", "let a = try!(b, c);"),
+    ("e15-try-near", "let a = try!(b?); let c = r#try!(d); let e = try![f]; let g = try! { h }; let i = try!(); let j = my::try!(k); let l = try!(m).n; let o = try!(p)?; let q = trying!(r); let s = try_!(t); let u = try!(v,);"),
+    ("e15-try-exprs", "let a = try!(b + c); let d = try!(-e); let f = try!(g as u8); let h = try!(|| i); let j = try!(k..l); let m = try!(&n); let o = try!(p = q); let r = try!(if s { t } else { u }); let v = try!(w?.x);"),
+    // condense_wildcard_suffixes
+    ("wild", "match x { Foo(_, _, x @ _) => 1, Foo(a, _, _) => 2, Foo(_, _) => 3, [_, _, .., _] => 4, (_, _, ..) => 5, Foo(_, _, ..) | Bar(.., _, _) => 6, Foo(_, ref _a, _) => 7, (_, _,) => 8, S { a: _, b: _ } => 9, Foo(_) => 10, Foo(a, _) => 11, Foo(_, _, _x) => 12, Foo(_, (_, _), _) => 13, (a, _, _, _) => 14, Foo(_, _, &_) => 15, Foo(_, _, _ | _) => 16, [_, _, _] => 17, Foo(_, _, mac!()) => 18, Foo(_, __, _) => 19, _ => 20 }"),
+    ("wild-let", "let (a, _, _) = t; let Foo(_, _, _) = u; let (_, _): (u8, u8) = v; let f = |(a, _, _): T, _: u8, _| a; if let Some((_, _, _)) = w {} for (_, _, _) in z {}"),
+    // remove_nested_parens
+    ("parens", "let b = ((a,)); let c = (a..); let d = ((a, b)); let e = (((a))); let f = ((a)..(b)); let g = (()); let h = f((a)); let i = ((a))(b); let j = (&(a)).b; let k = -(-(a)); let l = ((a) as u8); let m = ({ a }); let n = ((|| a))(); let o = ((a + b)) * c; let p = f(((a, b))); let q = ((a)?); let r = (((a.b))).c; let s = [((a))]; let t = (((), ())); let u = ((a)) = b;"),
+    ("parens-attr", "let a = (#[attr] (a + b));"),
+    ("parens-pat-ty", "let ((a)) = b; let c: ((u8)) = d; let (((e, f))) = g; let h: ((u8, u8)) = i; let j: (((u8),)) = k; fn l(((m)): ((u8))) {} let n: &((dyn T + Send)) = o; let p: *const ((u8)) = q; match r { ((A)) | ((B)) => {} ((C | D)) => {} }"),
+    // hex_literal_case
+    ("hex", "let a = 0xAB_u8; let b = 0xABCDEFu32; let c = 0xabcdef; let d = 0xAbCd_EfF_i64; let e = 0xFFusize; let f = 0xe; let g = 0x1f32; let h = 0b1010_u8; let i = 0o777; let k = 0xE+1; let l = 0xEi8; let m = 0xdead_beef_u64; let n = 0xBADF00D; let o = 0xa_b_c_d; let p = 0xfe; let q = 0xFEu8 as char; let r = x.0xa; let s = 0xcafeisize; let t = 0xC0FFEE_f;"),
+    ("hex-contexts", "const A: [u8; 0xAb] = [0xcD; 0xAb]; match x { 0xaB..=0xCd => {} 0xEf | 0xfF => {} _ => {} } let y = m!(0xAb, 0xcD); let z = \"0xAb\"; let w = '\\x4a'; let v = b\"\\xAb\"; let u = \"\\u{1F60a}\";"),
+    // float_literal_trailing_zero
+    ("float", "let a = 1.0; let e = 1.; let g = 1.0f32; let h = 1f32; let i = 1e10; let j = 1.0e10; let k = 1_000.000_0; let l = 0.0; let m = 1.50; let n = x.0.0; let q = 1.0 as u8; let r = -1.0; let s = [1.0; 2]; let t = (1.0,); let w = 1.0_f64.sqrt(); let x2 = 1.0E-5; let y = 1_f64; let z = 2.0e+3_f32; let aa = 0.; let ab = 00.00; let ac = 1.0_; let ad = 1.e0;"),
+    ("float-ranges", "let a = 1.0..2.0; let c = 1.0..=2.0; let u = 1.0..; let v = ..2.0; let w = ..=2.0; let x = 1.0 ..2.0; let y = (1.0)..(2.0); let z = 1. ..2.; for i in 0.0..1.0 {}"),
+    ("float-range-ref", "let b = &1.0..2.0;"),
+    ("float-range-pat", "match x { 1.0..=2.0 => {} _ => {} }"),
+    ("float-range-pat2", "match x { 1.0.. => {} ..=2.0 => {} 1.0 => {} -1.0..=-0.0 => {} _ => {} } if let 1.0..=2.0 = y {}"),
+    ("float-method", "let d = 1.0.method(); let e = 2.0.max(1.0); let f = 1.0 .method(); let g = (1.0).method(); let h = 1.0.0; let i = 1.0f32.method(); let j = 1.0e5.method(); let k = -1.0.abs(); let l = 1.0.x; let m = 1.0?; let n = 1.0[0]; let o = 1.0.await;"),
+    // leading pipes / match_block_trailing_comma / match_arm_blocks
+    ("pipes", "match x { | A | B if c => 1, | A => 2, A | B => 3, | (A | B) => 4, | [A] | [B] if d => 5, | _ if e => 6, _ => 7 } let (| A | B) = y; if let | A | B = w {} while let | Some(A) | None = v {} let f = |x| x; let g = || |y| y; matches!(u, | A | B); fn h((| A | B): E) {}"),
+    ("arm-blocks", "match x { A => { a() } B => { b() }, C => c, D => { d }, E => unsafe { e }, F => if g { 1 } else { 2 }, G => match h { _ => {} } H => loop {}, I => {} J => {}, K => { k; } L => { l; }, M => async { m }, N => const { n }, O => 'a: { o }, P => { #[p] q } Q => { { r } } R => {{ s }}, S => ({ t }), T => { u }.v(), _ => { return } }"),
+    // trailing_semicolon and statement blocks
+    ("jumps-semis", "fn a() { return; } fn b() { return } fn c() { loop { break } } fn d() { loop { continue } } fn e() { loop { break; } } fn f() -> u8 { return 1 } fn g() { if x { return } else { return; } } fn h() { match x { _ => return } } fn i() { let c = || return; } fn j() { { x }; { y } ; z; } fn k() { loop { break 'a 1 } } fn l() { return return; } fn m() { { return }; } fn n() { x; ; y;; }"),
+    ("block-semis", "{ x }; { y } z; if a { b }; if a { b } else { c }; match d { _ => {} }; loop {}; while e {}; for f in g {}; unsafe { h }; 'l: { i }; async { j }; const { k }; { l }.m(); { n }?; struct S {}; fn o() {}; mod p {}; m! { q }; m!(r); m![s]; ;"),
+    // overflow_delimited_expr / vec! delimiters / empty lists
+    ("overflow", "f(a, [1, 2, 3]); f(a, S { b: 1 }); f(&[1, 2]); f(vec![1, 2, 3]); f(a, |x| { x }); f(a, (1, 2)); f(a, m! { b }); f(a, &mut [b, c]); f(a, [b; 2]); f(a, ((b))); f([a], [b]); f(a, { b }); f(a, unsafe { b }); f(a, match b { _ => c });"),
+    ("vec-delims", "let a = vec!(1, 2); let b = vec!{3}; let c = vec![]; let d = my::vec!(1); let e = r#vec!(1); let f = vec!(1; 2); let g = vec!(); let h = vec!{}; let i = vec!(vec!(1), vec!{2}); let j = veq!(1); let k = vec!((1, 2)); let l = vec!([1]); let m = vec!({ 1 });"),
+    ("empties", "let b = c::<>(); let d: E<> = f; let g: for<> fn() = h; let l = M::<> {}; let q: &dyn for<> R<> = s; fn a<>() {} fn i<T:>() {} fn j() where {} struct K<> where; impl<> N<> for O<> where {} fn p<'a:, T: 'a +>() {} use t::{}; use u::{v::{}}; fn w<T: ?Sized +>() where T:, {}"),
+    // strings
+    ("strings", "let a = \"a\\\n      b\"; let b = \"x\\n\"; let c = r\"raw \\n\"; let d = b\"bytes\\x00\"; let e = c\"cstr\"; let g = \"tab\\there\"; let h = 'c'; let i = b'\\''; let j = \"\\u{1F600}\"; let k = \"trailing spaces   \"; let l = r#\"ra\"w\"#; let m = br##\"x\"#y\"##; let n = \"\\\\\\n\"; let o = \"a\\\n\\\n   b\"; let p = \"\\x41\\\"\\'\\0\"; let q = '\\u{41}'; let r = \"\";"),
+    ("strings-long", "let f = \"a long string with \\n escapes and words and words and words and words and words and \\t more words \\\\ and a backslash \\\" quote and so on and on\"; let g = \"nospacesnospacesnospacesnospacesnospaces\\nnospacesnospacesnospacesnospacesnospaces\\\\nospacesnospaces\"; let h = \"ends in blanks                                                                      \";"),
+];
+
+/// item lists
+pub const NM_ITEM_SHAPES: &[(&str, &str)] = &[
+    ("doc-attrs", "#[doc = \"x\"]\n/// y\n#[doc = \"z\"]\nfn a() {}\n#[doc(hidden)]\n#[doc = \"x\"]\nfn b() {}\n#[doc = r\"raw\"]\nfn c() {}\n#[doc = \"multi\\nline\"]\nfn d() {}\n#[doc = \"with \\\"quote\\\"\"]\nfn e() {}\n#[doc = include_str!(\"x\")]\nfn f() {}\n#[doc = concat!(\"a\", \"b\")]\nfn g() {}\n#[cfg_attr(x, doc = \"y\")]\nfn h() {}\n#[doc = \"\"]\nfn i() {}\n#[doc = \" */ \"]\nfn j() {}\n#[doc(alias = \"x\")]\nfn l() {}\n#[doc = \"tab\\there\"]\nfn m() {}\n#[doc = \"\\u{41}\"]\nfn n() {}\n"),
+    ("doc-attrs-inner", "#![doc = \"crate\"]\n//! inner\n#![doc = \"more\"]\nmod m {\n    #![doc = \"mod\"]\n}\nstruct S {\n    #[doc = \"field\"]\n    f: u8,\n}\nenum E {\n    #[doc = \"variant\"]\n    V,\n}\n"),
+    ("derives", "#[derive(A)]\n#[cfg(x)]\n#[derive(B)]\nstruct S1;\n#[derive(A)]\n/// doc\n#[derive(B)]\nstruct S2;\n#[derive(A, B,)]\n#[derive()]\n#[derive(C)]\nstruct S3;\n#[derive(a::A)]\n#[derive(B)]\n#[allow(x)]\n#[derive(C)]\nstruct S4;\n#[cfg_attr(x, derive(A))]\n#[derive(B)]\nstruct S5;\n#[derive(A)]\n#[derive(A)]\nstruct S6;\n#[derive(B, A)]\n#[derive(C)]\nenum E1 {}\n#[derive = \"x\"]\n#[derive(A)]\nstruct S7;\n#[derive(A)] // c\n#[derive(B)]\nstruct S8;\n"),
+    ("abi", "extern \"C\" fn a() {}\nextern fn b() {}\nextern \"Rust\" fn c() {}\nextern \"C\" {}\nextern {}\nextern \"system\" {}\ntype F = extern fn();\ntype G = extern \"C\" fn();\ntype H = unsafe extern \"Rust\" fn();\nextern \"c\" fn d() {}\nextern \"C-unwind\" fn e() {}\nunsafe extern \"C\" { fn f(); }\nunsafe extern { fn g(); }\nimpl S { extern fn h() {} pub extern \"C\" fn i() {} }\nextern crate j;\nextern \"C\" { static K: u8; }\n"),
+    ("vis-near", "struct A(pub(crate) T, pub (self::T), pub(in self) T, pub (crate::T), pub(in crate) T, pub(in super) T, pub(in crate::a) T, pub (super::T), pub(self) T, pub (in_crate::T));\npub(in crate) fn b() {}\npub(in self) fn c() {}\npub(in super) fn d() {}\npub(in super::super) fn e() {}\npub(in crate::f) fn f() {}\npub(in self::g) fn g() {}\n"),
+    ("impl-order", "impl S {\n    type A = u8;\n    type B = u8;\n    const C: u8 = 1;\n    const D: u8 = 2;\n    fn e() {}\n    fn f() {}\n}\nimpl T for S {\n    type A = u8;\n    const C: u8 = 1;\n    m!();\n    fn e() {}\n}\ntrait U {\n    type A;\n    const C: u8;\n    fn e();\n}\n"),
+    ("macro-matchers", "macro_rules! m {\n    ($a:expr, $($b:tt)*) => { S { x: x::<T>, y: $a } };\n    ($a:ident) => {{ try!($a) }};\n    (@x $a:pat) => { match y { $a | _ => 1 } };\n    ($($a:ident),* $(,)?) => { ($($a,)*) };\n    ($a:literal) => { [0xAb, 1.0, $a] };\n    ($(#[$a:meta])* $v:vis fn $n:ident()) => { $(#[$a])* $v fn $n() {} };\n    () => {};\n}\nm!(S { x: x::<T> });\nm!((a,), ((b)), 0xAb, 1.0..2.0);\nm! { pub(in crate) fn f() }\n"),
+    ("use-near", "use a::{self};\nuse b::{self as b};\nuse c::{d as d};\nuse e::{};\nuse ::f;\nuse g::{self, self as h};\nuse i::*;\nuse {j, k};\nuse l as _;\nuse m::{n::{self}};\nuse self::o;\nuse r#p::q;\nuse s::r#t;\n"),
+];
+
+pub fn nm_options() -> Vec<Vec<(String, String)>> {
+    let s = |k: &str, v: &str| vec![(k.to_string(), v.to_string())];
+    let mut v = vec![
+        vec![],
+        s("use_field_init_shorthand", "true"),
+        s("use_try_shorthand", "true"),
+        s("condense_wildcard_suffixes", "true"),
+        s("remove_nested_parens", "false"),
+        s("normalize_doc_attributes", "true"),
+        s("merge_derives", "false"),
+        s("force_explicit_abi", "false"),
+        s("hex_literal_case", "Upper"),
+        s("hex_literal_case", "Lower"),
+        s("float_literal_trailing_zero", "Always"),
+        s("float_literal_trailing_zero", "IfNoPostfix"),
+        s("float_literal_trailing_zero", "Never"),
+        s("format_macro_matchers", "true"),
+        s("format_macro_bodies", "false"),
+        s("reorder_impl_items", "true"),
+        s("match_arm_leading_pipes", "Always"),
+        s("match_arm_leading_pipes", "Preserve"),
+        s("match_block_trailing_comma", "true"),
+        s("match_arm_blocks", "false"),
+        s("trailing_semicolon", "false"),
+        s("overflow_delimited_expr", "true"),
+        s("format_strings", "true"),
+        s("trailing_comma", "Never"),
+        s("trailing_comma", "Always"),
+        s("struct_lit_single_line", "false"),
+        s("use_small_heuristics", "Max"),
+        s("imports_granularity", "Crate"),
+        s("reorder_imports", "false"),
+        s("style_edition", "2015"),
+    ];
+    // all opt-in token rewrites at once
+    v.push(vec![
+        ("use_field_init_shorthand".into(), "true".into()),
+        ("use_try_shorthand".into(), "true".into()),
+        ("condense_wildcard_suffixes".into(), "true".into()),
+        ("normalize_doc_attributes".into(), "true".into()),
+        ("hex_literal_case".into(), "Upper".into()),
+        ("float_literal_trailing_zero".into(), "Never".into()),
+        ("format_macro_matchers".into(), "true".into()),
+        ("match_block_trailing_comma".into(), "true".into()),
+        ("overflow_delimited_expr".into(), "true".into()),
+    ]);
+    v.retain(|o| o.iter().all(|(k, val)| rustfmt_nightly::Config::is_valid_key_val(k, val)));
+    v
+}
+
+pub const NM_WIDTHS: &[usize] = &[30, 60, 100];
+
+/// The near-miss universe, in a fixed order.  id = `nm:<shape>:<context>|w<width>|<options or base>`
+pub fn nm_universe() -> Vec<Case> {
+    let opts = nm_options();
+    let mut v = vec![];
+    let mut shapes: Vec<(String, Vec<(&'static str, String)>)> = vec![];
+    for (name, body) in NM_STMT_SHAPES {
+        let is_fn_list = body.starts_with("fn ");
+        let plain = if is_fn_list { format!("{}\n", body) } else { format!("fn f() {{ {} }}\n", body) };
+        let mut ctxs = vec![("plain", plain.clone()), ("in-macro-def", format!("macro_rules! wrap {{\n    () => {{\n{}    }};\n}}\n", plain))];
+        if !is_fn_list {
+            ctxs.push(("in-macro-call", format!("fn f() {{ wrap!({{ {} }}); }}\n", body)));
+            ctxs.push(("in-closure-chain", format!("fn f() {{ a.b(|c| {{ {} }}).d(e, move |g| {{ {} }}); }}\n", body, body)));
+        }
+        shapes.push((name.to_string(), ctxs));
+    }
+    for (name, body) in NM_ITEM_SHAPES {
+        shapes.push((name.to_string(), vec![("plain", body.to_string()), ("in-macro-def", format!("macro_rules! wrap {{\n    () => {{\n{}    }};\n}}\n", body)), ("in-mod", format!("mod outer {{\n{}}}\n", body))]));
+    }
+    for (name, ctxs) in shapes {
+        let edition = if name.starts_with("e15-") { "2015" } else { "2024" };
+        for (cname, text) in ctxs {
+            for w in NM_WIDTHS {
+                for o in &opts {
+                    let mut cfg: Vec<(String, String)> = vec![("edition".into(), edition.into()), ("style_edition".into(), "2024".into()), ("max_width".into(), w.to_string())];
+                    cfg = merge_cfg(&cfg, o);
+                    let oname = if o.is_empty() { "base".to_string() } else { cfg_text(o) };
+                    v.push(Case { id: format!("nm:{}:{}|w{}|{}", name, cname, w, oname), src: text.clone(), cfg });
+                }
+            }
+        }
+    }
+    v
+}
